@@ -84,6 +84,34 @@ impl<'a> ConfigExtractor<'a> {
         }
     }
 
+    /// Gets a number that has to lie in a certain range to make sense (a size, a byte value)
+    pub fn try_get_i64_in(
+        &self,
+        ctx: &mut CodegenContext,
+        key: &str,
+        range: std::ops::RangeInclusive<i64>,
+    ) -> CoreResult<Option<i64>> {
+        match self.try_get_i64(ctx, key)? {
+            Some(value) if !range.contains(&value) => {
+                let span = self
+                    .try_get_kvp(key)
+                    .map(|(_, v)| v.span)
+                    .unwrap_or(self.config_span);
+                Err(Diagnostic::error()
+                    .with_message(format!(
+                        "{} is not a valid value for configuration key '{}' (it has to be between {} and {})",
+                        value,
+                        key,
+                        range.start(),
+                        range.end()
+                    ))
+                    .with_labels(vec![span.to_label()])
+                    .into())
+            }
+            value => Ok(value),
+        }
+    }
+
     pub fn try_get_expression(&self, key: &str) -> Option<Located<Expression>> {
         let expr = self.try_get_located_token(key).map(|lt| {
             lt.map(|tok| match tok {
